@@ -53,6 +53,14 @@ pub struct Point {
     /// name of the step (for evidence / signatures), from the counting run
     pub step: String,
     pub total_steps: usize,
+    /// false: the process lives on after the failed call and goes on with the same server
+    /// handles (only meaningful when the call returned an error)
+    #[serde(default = "yes")]
+    pub restart: bool,
+}
+
+fn yes() -> bool {
+    true
 }
 
 pub fn scn_strategy(backend: Backend) -> BoxedStrategy<Scn> {
@@ -83,9 +91,19 @@ pub fn scn_strategy(backend: Backend) -> BoxedStrategy<Scn> {
 
 /// Records what passes through a server handle; can run a hook right before add_version.
 struct Interposer {
-    inner: Box<dyn Server>,
+    inner: Option<Box<dyn Server>>,
     log: Rc<RefCell<Vec<(Uuid, Vec<u8>)>>>,
     before_add: Option<Box<dyn FnMut()>>,
+    /// where the wrapped handle goes when the interposer is dropped
+    give_back: Slot,
+}
+
+type Slot = Rc<RefCell<Option<Box<dyn Server>>>>;
+
+impl Drop for Interposer {
+    fn drop(&mut self) {
+        *self.give_back.borrow_mut() = self.inner.take();
+    }
 }
 
 #[async_trait::async_trait(?Send)]
@@ -99,16 +117,16 @@ impl Server for Interposer {
             f();
         }
         self.log.borrow_mut().push((parent_version_id, history_segment.clone()));
-        self.inner.add_version(parent_version_id, history_segment).await
+        self.inner.as_mut().unwrap().add_version(parent_version_id, history_segment).await
     }
     async fn get_child_version(&mut self, parent_version_id: VersionId) -> Result<GetVersionResult, Error> {
-        self.inner.get_child_version(parent_version_id).await
+        self.inner.as_mut().unwrap().get_child_version(parent_version_id).await
     }
     async fn add_snapshot(&mut self, version_id: VersionId, snapshot: Snapshot) -> Result<(), Error> {
-        self.inner.add_snapshot(version_id, snapshot).await
+        self.inner.as_mut().unwrap().add_snapshot(version_id, snapshot).await
     }
     async fn get_snapshot(&mut self) -> Result<Option<(VersionId, Snapshot)>, Error> {
-        self.inner.get_snapshot().await
+        self.inner.as_mut().unwrap().get_snapshot().await
     }
 }
 
@@ -224,15 +242,18 @@ fn run_until_fault(scn: &Scn, fault: Option<(usize, Kind)>) -> Result<(Run, Inte
         let racing = scn.race.is_some();
         sx.set_gated(racing);
         sy.set_gated(racing);
+        let (slot_x, slot_y): (Slot, Slot) = Default::default();
         let mut hx_box: Box<dyn Server> = Box::new(Interposer {
-            inner: run.bk.handles[hx].take().unwrap(),
+            inner: run.bk.handles[hx].take(),
             log: log.clone(),
             before_add: None,
+            give_back: slot_x.clone(),
         });
         let mut hy_box: Box<dyn Server> = Box::new(Interposer {
-            inner: run.bk.handles[hy].take().unwrap(),
+            inner: run.bk.handles[hy].take(),
             log: racer_log.clone(),
             before_add: None,
+            give_back: slot_y.clone(),
         });
         let results = {
             let (rx, rest) = run.reps.split_at_mut(1);
@@ -261,6 +282,11 @@ fn run_until_fault(scn: &Scn, fault: Option<(usize, Kind)>) -> Result<(Run, Inte
             }
         }
         out.sync_result = Some(results.outputs[0].as_ref().map(|_| ()).map_err(|e| format!("{e:?}")));
+        drop(results);
+        drop(hx_box);
+        drop(hy_box);
+        run.bk.handles[hx] = slot_x.borrow_mut().take();
+        run.bk.handles[hy] = slot_y.borrow_mut().take();
         run.pushed = true;
     } else {
         // ---- local / git: failpoints on this thread, racer through the interposer hook
@@ -300,11 +326,12 @@ fn run_until_fault(scn: &Scn, fault: Option<(usize, Kind)>) -> Result<(Run, Inte
                 failpoints_suspend(false);
             }));
         }
-        let inner = run.bk.handles[hx].take().unwrap();
+        let slot_x: Slot = Default::default();
         let mut hx_box: Box<dyn Server> = Box::new(Interposer {
-            inner,
+            inner: run.bk.handles[hx].take(),
             log: log.clone(),
             before_add: hook,
+            give_back: slot_x.clone(),
         });
         let target_is_snapshot = scn.git_snapshot;
         if target_is_snapshot {
@@ -345,6 +372,7 @@ fn run_until_fault(scn: &Scn, fault: Option<(usize, Kind)>) -> Result<(Run, Inte
             }
         }
         drop(hx_box);
+        run.bk.handles[hx] = slot_x.borrow_mut().take();
         if let Some((rep1, h1)) = racer.borrow_mut().take() {
             run.reps[1] = rep1;
             run.bk.handles[hy] = Some(h1);
@@ -390,7 +418,7 @@ pub fn check_point(pt: &Point) -> CheckResult {
     let (mut run, out) = run_until_fault(scn, Some((pt.index, pt.kind.clone())))?;
     // A finding is identified by its call site: backend, internal step, fault kind.  What the
     // oracles observe afterwards is in the message.
-    let sig = |_what: &str| format!("{:?}:{}:{:?}", scn.backend, pt.step, pt.kind);
+    let sig = |_what: &str| format!("{:?}:{}:{:?}{}", scn.backend, pt.step, pt.kind, if pt.restart { "" } else { ":no-restart" });
     if !out.fired {
         rep.class("fault-point-not-reached");
     }
@@ -401,8 +429,12 @@ pub fn check_point(pt: &Point) -> CheckResult {
     if out.stopped {
         rep.class("process-stop");
     }
-    // ---- restart
-    run.restart();
+    // ---- restart (or, after a returned error, the same process going on with the same handles)
+    if pt.restart || out.stopped {
+        run.restart();
+    } else {
+        rep.class("continued-without-restart");
+    }
     let pushed = run.pushed;
     let hx = run.hidx(0);
     // atomic visibility, judged through a fresh handle
@@ -465,8 +497,13 @@ pub fn check_point(pt: &Point) -> CheckResult {
                 }
             }
         };
-        for v in chain.iter().map(|v| v.1).chain(std::iter::once(latest)) {
-            if v == probe {
+        // (on the git backends every probe costs a dozen process launches: the root and the two
+        // newest parents only)
+        let git = matches!(scn.backend, Backend::GitLocal | Backend::GitRemote);
+        let parents: Vec<Uuid> = chain.iter().map(|v| v.1).chain(std::iter::once(latest)).collect();
+        let np = parents.len();
+        for (pi, v) in parents.into_iter().enumerate() {
+            if v == probe || (git && pi > 0 && pi + 2 < np) {
                 continue;
             }
             let (r, _) = block_on(s.add_version(v, EMPTY_VERSION.to_vec())).map_err(|e| {
@@ -564,6 +601,7 @@ pub fn render(pt: &Point) -> serde_json::Value {
         "racing_replica": pt.scn.race.as_ref().map(|i| i.iter().map(render_intent).collect::<Vec<_>>()),
         "interrupted_call": if pt.scn.git_snapshot { "add_snapshot" } else { "sync (add_version)" },
         "fault": format!("step {} of {}: '{}', {:?}", pt.index, pt.total_steps, pt.step, pt.kind),
+        "then": if pt.restart { "restart (all handles dropped, backend reopened)" } else { "no restart: the same handles go on" },
         "continuation": pt.scn.cont.iter().map(render_action).collect::<Vec<_>>(),
     })
 }
@@ -572,13 +610,19 @@ pub fn points_for(scn: &Scn) -> Result<Vec<Point>, Failure> {
     let steps = count_steps(scn)?;
     let mut out = vec![];
     for (i, step) in steps.iter().enumerate() {
-        for kind in [Kind::Error, Kind::StopOrLostReply] {
+        // a returned error (object store: also a lost reply) is also followed without a restart
+        let lost_reply_returns = scn.backend == Backend::ObjectStore;
+        for (kind, restart) in [(Kind::Error, true), (Kind::StopOrLostReply, true), (Kind::Error, false), (Kind::StopOrLostReply, false)] {
+            if !restart && kind == Kind::StopOrLostReply && !lost_reply_returns {
+                continue;
+            }
             out.push(Point {
                 scn: scn.clone(),
                 index: i,
                 kind,
                 step: step.clone(),
                 total_steps: steps.len(),
+                restart,
             });
         }
     }
@@ -600,7 +644,12 @@ pub fn run(e: &Engine) {
         let mut cases: Vec<Point> = vec![];
         if e.replay.is_none() {
             for i in 0..n {
-                let scn = crate::engine::draw(&strat, e.seed.wrapping_add(0xc11).wrapping_add(i * 7919 + b as u64 * 104_729));
+                let mut scn = crate::engine::draw(&strat, e.seed.wrapping_add(0xc11).wrapping_add(i * 7919 + b as u64 * 104_729));
+                if b == Backend::GitRemote && i % 2 == 1 {
+                    // the interrupted call is the very first push to a brand-new remote
+                    scn.initial.clear();
+                    scn.git_snapshot = false;
+                }
                 match points_for(&scn) {
                     Ok(p) => cases.extend(p),
                     Err(f) => {
@@ -610,9 +659,10 @@ pub fn run(e: &Engine) {
                 }
             }
         }
+        e.set_worker_cap(if matches!(b, Backend::GitLocal | Backend::GitRemote) { 4 } else { u64::MAX });
         e.enumerate(
             &format!("steps-{b:?}"),
-            &format!("{b:?}: for each of {n} generated scenarios (initial history, X's pending changes, optionally a racing replica whose version lands between X's pull and push, optionally an interrupted add_snapshot), EVERY internal step of the interrupted call (failpoints before/after each database statement, file write and git command; or every object-store request) x {{error, stop / lost reply}}; then restart, atomic-visibility and chain-protocol probes, a generated continuation by all three replicas, convergence to the replay of a final walk; non-trivial = the fault lies strictly inside the call"),
+            &format!("{b:?}: for each of {n} generated scenarios (initial history, X's pending changes, optionally a racing replica whose version lands between X's pull and push, optionally an interrupted add_snapshot), EVERY internal step of the interrupted call (failpoints before/after each database statement, file write and git command; or every object-store request) x {{error, stop / lost reply}}; then restart (after a returned error also: no restart, the same handles go on), atomic-visibility and chain-protocol probes, a generated continuation by all three replicas, convergence to the replay of a final walk; non-trivial = the fault lies strictly inside the call"),
             cases,
             render,
             check_point,
